@@ -80,6 +80,10 @@ struct trie_node *trie_lookup(const struct trie_node *root, const struct lrtr_ip
 								lrtr_ip_addr_get_bits(prefix, 0, root->len)))
 			return (struct trie_node *)root;
 
+		// a node as deep as the address is wide has no children: there is no further bit to branch on
+		if (*lvl >= (prefix->ver == LRTR_IPV4 ? 32u : 128u))
+			return NULL;
+
 		if (is_left_child(prefix, *lvl))
 			root = root->lchild;
 		else
